@@ -96,6 +96,10 @@ def validate(ctx, scenarios, name, module="TraceBroker", invariants=("IdsDistinc
     Returns (rejected, stats); rejected entries from the strict pass carry strict=True."""
     devs = [k["deviation"] for k in open_deviations(ctx)] if lenient else []
     rejected, stats, tp, index, lines, by_id = _validate_once(ctx, scenarios, name, module, invariants, par, max_reject, jvms, devs, None)
+    if any(e.get("followed") or e.get("diverged") for e in index):
+        stats["sched_followed"] = sum(e.get("followed", 0) for e in index)
+        stats["sched_diverged"] = sum(e.get("diverged", 0) for e in index)
+        stats["sched_diverged_scenarios"] = [e["id"] for e in index if e.get("diverged")][:20]
     if devs:
         rej2, st2, _, _, _, _ = _validate_once(ctx, scenarios, name + "_strict", module, invariants, par, max_reject, jvms, [], (tp, index, lines, by_id))
         bad = {r["scenario"]["id"] for r in rejected}
